@@ -52,6 +52,14 @@ pub mod eval {
         pub fn opening(piece: usize, sq: usize) -> i32 { OPENING_TABLES[piece][sq] }
         pub fn endgame(piece: usize, sq: usize) -> i32 { ENDGAME_TABLES[piece][sq] }
         pub fn phase_inc(piece: usize) -> i32 { PHASE_INCREMENTS[piece] }
+        /// model of eval_piece_type for the composition lemma: add the (white-relative) contribution the
+        /// harness chose for this kind, negated when black is the side being scored
+        pub fn stub_eval_piece_type(ev: &mut Evaluator, color: Color, piece: Piece, _b: &Board) {
+            let (o, e, g) = unsafe { crate::h_eval::CONTRIB[piece.index()] };
+            unsafe { crate::h_eval::STUB_CALLS += 1; }
+            if color == Color::White { ev.opening_score += o; ev.endgame_score += e; } else { ev.opening_score -= o; ev.endgame_score -= e; }
+            ev.gamephase += g;
+        }
     }
 }
 pub mod fen {
@@ -85,6 +93,7 @@ pub mod board {
     pub mod vh {
         use super::*;
         pub fn position_from_raw(pieces: [u64; 6], colors: [u64; 2]) -> Position { Position { pieces, colors } }
+        pub fn rights(c: &Castle) -> [bool; 4] { [c.white_king, c.white_queen, c.black_king, c.black_queen] }
     }
 }
 pub mod move_gen {
@@ -110,6 +119,17 @@ pub mod move_gen {
         pub fn gen_castles(mg: &MoveGenerator, board: &Board) -> Vec<Move> {
             let mut v = Vec::new(); mg.generate_pseudo_legal_castles(board, &mut v); v
         }
+        /// model of the legality filter for the generator/glue harnesses: an arbitrary predicate on the
+        /// move; also checks that generate_moves hands the filter the right king square, checkers and pins
+        pub fn stub_is_legal(mg: &MoveGenerator, board: &Board, mv: &Move, checkers: Bitboard, pinned_pieces: Bitboard, king_square: Square) -> bool {
+            let ks = mg.king_square(board);
+            vassert!(king_square == ks, "C01: legality filter is handed a wrong king square");
+            vassert!(checkers == mg.attacks_to(board, ks), "C01: legality filter is handed wrong checkers");
+            vassert!(pinned_pieces == mg.get_pinned_pieces(board, ks), "C01: legality filter is handed wrong pinned pieces");
+            crate::h_movegen::pred(mv)
+        }
+        pub fn pred_check(mv: &Move) -> bool { !crate::h_movegen::pred(&Move::new(mv.to, mv.from, mv.piece_type, mv.move_type)) }
+        pub fn stub_is_check(_mg: &MoveGenerator, _board: &Board, mv: &Move) -> bool { pred_check(mv) }
         pub fn q_pred(mg: &MoveGenerator, board: &Board, mv: &Move) -> bool {
             mg.is_capture(mv) || mg.is_promotion(mv) || mg.is_check(board, mv)
         }
@@ -122,11 +142,13 @@ pub mod spec;
 pub mod common;
 pub mod gen {
     #[cfg(kani)] pub mod tables_small;
+    #[cfg(kani)] pub mod eval_consts;
     #[cfg(not(kani))] pub mod registry;
 }
 pub mod h_board;
 pub mod h_movegen;
 pub mod h_misc;
+pub mod h_eval;
 
 #[cfg(not(kani))]
 mod native;
